@@ -74,6 +74,21 @@ def state_bases(env, n, tier):
         c.add(qubit.S(), 4)
         c.add(qubit.T(), 0)
         yield "T.S.GHZ", c
+    if env.mode == "native":
+        # states with tiny but non-zero Pauli expectations / populations (1e-3 ... 1e-7): nothing may be rounded away
+        for eps in (6e-4, 3e-5, 1e-7):
+            c = lw.Circuit(2 * n)
+            c.add(qubit.Ry(eps), 0)
+            if n >= 2:
+                c.add(qubit.CNOT_Heralded(), 0)          # cos|00..> + sin|11..>
+            if n >= 3:
+                c.add(qubit.CNOT_Heralded(), 2)
+            yield f"Ry({eps})|0> entangled over {n} qubit(s)", c
+            c = lw.Circuit(2 * n)
+            c.add(qubit.H(), 0)
+            c.add(qubit.Ry(eps), 0)
+            c.add(qubit.S(), 2 * (n - 1))
+            yield f"Ry({eps}).H|0> (nearly |+>), n={n}", c
 
 
 # ------------------------------------------------------------------------------------------------ C15
@@ -373,7 +388,7 @@ def unit(mode="exact", tier="quick", seed=0, which="state", n=1):
     agg = OrderedDict()
     if mode == "exact":
         from vf.xlift import hook
-        for path, log, res in hook.run_paths(lambda: _run(mode, which, n, tier)):
+        for path, log, res in _capped_paths(hook, lambda: _run(mode, which, n, tier)):
             obs = res[1] if res[0] == "ok" else [dict(name=f"vf/tasks/t_tomo.py:{which}#xsym.runs[n={n}]", kind="xsym", result="refuted", backend="xlift", ms=0,
                                                       note=f"raised {type(res[1]).__name__}: {res[1]}", model=dict(which=which, n=n))]
             for o in obs:
@@ -391,6 +406,15 @@ def unit(mode="exact", tier="quick", seed=0, which="state", n=1):
         if o["result"] in ("refuted", "bounded-fail"):
             o["replay_spec"] = dict(module="vf.tasks.t_tomo", func="replay", args=[which, n, o["name"], o.get("model")])
     return dict(status="ok", obligations=obligations, summary=f"{which}[n={n},{mode}]: {len(obligations)} obligations")
+
+
+def _capped_paths(hook, task, cap=24):
+    """symbolic paths with a cap: code under test that branches on the symbolic values more often than that is undecided (never a violation)"""
+    from vf.xlift.field import Undecided
+    try:
+        yield from hook.run_paths(task, max_paths=cap)
+    except Undecided as e:
+        yield [], [], ("ok", [dict(name="vf/tasks/t_tomo.py#xsym.paths", kind="xsym", result="unknown", backend="xlift", ms=0, note=str(e), reason=f"more than {cap} symbolic paths: {e}")])
 
 
 def replay(which, n, name, model):
